@@ -29,7 +29,14 @@ def check(run):
     # directed: re-entrancy at depth (a re-entrant evaluation is an ordinary evaluation; nothing may add up across the nested evaluations of one thread)
     import core
     for levels, pad in ((4, 40), (16, 40), (40, 40)) + (((80, 60),) if thorough else ()):
-        out, _ = core.run_vh(["reent-depth", "--levels", levels, "--pad", pad])
+        try:
+            out, _ = core.run_vh(["reent-depth", "--levels", levels, "--pad", pad], timeout=60)
+        except Exception as e:
+            if "timed out" not in str(e):
+                raise
+            # the probe did not return: a re-entrant evaluation is stuck (the run is bounded so that it can be reported)
+            run.violation("C14/eval/depth", "nested re-entrant evaluation (%d levels) did not return within 60 s: deadlock" % levels, {"family": "reent-depth", "levels": levels, "pad": pad})
+            continue
         run.traces += 2
         run.evaluations += 2
         for kind, prog in (("fn", "deepf(%d), each level under %d prefix minuses" % (levels, pad)), ("bare", "`again` by bare name inside %d list brackets, %d levels" % (min(pad, 30), levels))):
@@ -47,7 +54,11 @@ def replay(path, seed):
     import json, core
     case = json.load(open(path))["case"]
     if case.get("family") == "reent-depth":
-        out, _ = core.run_vh(["reent-depth", "--levels", case["levels"], "--pad", case["pad"]])
+        try:
+            out, _ = core.run_vh(["reent-depth", "--levels", case["levels"], "--pad", case["pad"]], timeout=60)
+        except Exception as e:
+            print("did not return:", e)
+            return 1
         print(json.dumps(out))
         return 0 if out and all(out[0][k] == ["ok", ["num", False, [1], 0]] for k in ("fn", "bare")) else 1
     return ef.replay(path, seed)
